@@ -114,6 +114,19 @@ CLAIMED['C18'] = dict(
     design='§5 C18',
     technique="bounded symbolic execution of the cargo-fmt binary's MIR (mirsym) with symbolic child statuses; obligations decided by cvc5/z3; replay with a stand-in rustfmt")
 
+CLAIMED['C19'] = dict(
+    category='other',
+    text="The plumbing of rustfmt-format-diff, decided on the real MIR of scan_diff and run_rustfmt: for 1..2 (thorough 3) diff lines with every "
+         "combination of match outcomes of the two patterns, arbitrary captured texts, an uninterpreted filter predicate and parse::<u32> as a function "
+         "of the text, exactly the lines that are hunk headers of a current, filter-matching file with a non-zero count push a range, that range is "
+         "[start, start+count-1] (count 1 when absent) for the current file, and each is inserted once; the filter regex is built as ^filter$ and is the "
+         "one consulted; run_rustfmt spawns nothing when either set is empty and fails exactly when rustfmt's status is not success or cannot be "
+         "obtained. What the two regular expressions capture is environment (regex crate), stated as outside.",
+    note="Thin (level other). Trusted: MIR printer, mirsym, regex engine as symbolic environment (capture group 1 mandatory, group 3 optional), "
+         "format!/Regex::new observed structurally, numbers < 2^31. Replay: the real binary on a crafted diff with a recording $RUSTFMT stand-in.",
+    design='§5 C19',
+    technique="bounded symbolic execution of the format-diff binary's MIR (mirsym) with the regex engine as symbolic environment; obligations decided by cvc5/z3; CLI replay")
+
 NA = {
     'C01': "token-sequence equivalence over all programs requires symbolic execution of rustc_parse and ~30 kLoC of AST rewriters; no encodable kernel carries it",
     'C02': "fixed-point of the full formatting pipeline (parser + all rewriters on both sides); not encodable, and idempotence of kernels does not imply it",
